@@ -20,6 +20,7 @@ var c15Parsers = []string{
 
 var c15Lemmas = []string{
 	"nasType.verifLemmaRuleComponents", "nasType.verifLemmaRuleOperations", "nasType.verifLemmaFlowDescs",
+	"nasType.verifLemmaRuleFilters15", "nasType.verifLemmaFlowParameters63",
 }
 
 var c15Unknown = []string{"nasType.verifLemmaUnknownComponent", "nasType.verifLemmaUnknownParameter"}
@@ -62,7 +63,7 @@ func c15(w *core.World, rep *core.Report) {
 	QuickTimeout = 30 * time.Second
 	savedPaths := w.Cx.MaxPaths
 	w.Cx.MaxPaths = 3000
-	w.Cx.MaxVisits = 24
+	w.Cx.MaxVisits = 80
 	sym.Feasible = func(pc []*smt.Term) bool {
 		return smt.Solve(pc, smt.Options{Timeout: 2 * time.Second, OnlyFirst: true}).Status != "unsat"
 	}
@@ -79,7 +80,7 @@ func c15(w *core.World, rep *core.Report) {
 	w.Cx.UnwindDrop = false
 	w.Cx.MaxPaths = savedPaths
 	rep.Bounded = append(rep.Bounded,
-		core.Bounded{Function: "nasType QoS round-trip lemmas", Bound: "fixed shapes with symbolic field values: one create rule with one packet filter holding all 18 component types; two rules (each of the 6 operations with 2 packet filters, plus a delete rule without filters); two descriptions (7 parameters of the 7 kinds, and none). Lists of other lengths (0-15 filters, 0-63 parameters) are covered by the totality proof only"})
+		core.Bounded{Function: "nasType QoS round-trip lemmas", Bound: "fixed shapes with symbolic field values: one create rule with one packet filter holding all 18 component types; two rules (each of the 6 operations with 2 packet filters, plus a delete rule without filters); two descriptions (7 parameters of the 7 kinds, and none); the boundary counts 15 packet filters and 63 parameters. Lists of other lengths (0-15 filters, 0-63 parameters) are covered by the totality proof only"})
 	rep.Floor = 300
 	rep.AddUnique(&rep.Assumptions,
 		"encoders are exercised on the concrete component / parameter types of the package (lists holding other implementations of the interfaces are outside the statement)",
